@@ -20,4 +20,6 @@ macro_rules! props {
     };
 }
 
-props!(("C01", c01), ("C02", c02), ("C09", c09), ("C14", c14), ("C18", c18));
+pub mod c10_client;
+
+props!(("C01", c01), ("C02", c02), ("C04", c04), ("C09", c09), ("C10", c10), ("C14", c14), ("C16", c16), ("C18", c18), ("C19", c19));
